@@ -1,0 +1,9 @@
+//go:build !verif
+
+package receiver
+
+import "context"
+
+func verifPhase(*Downloader, string) {}
+
+func verifBackoff(context.Context, *Downloader) {}
